@@ -65,7 +65,17 @@ def job_compose(job):
             continue
         fr = O.Frame(alg)
         out['configs'] += 1
+        twin = None
+        if cfg.get('default_twin'):
+            # the default-basis algebra of the same signature and start index, used first in the same process on the same key
+            # patterns: nothing generated for one algebra may be handed to another whose blades are spelled differently
+            from kingdon import Algebra as _Alg
+            twin = _Alg(signature=[int(x) for x in alg.signature], start_index=alg.start_index)
         for ak, bk in _patterns(rng, alg, cfg):
+            if twin is not None:
+                ta, tb = mv_from(twin, ak, poly_vals('a', ak)), mv_from(twin, bk, poly_vals('b', bk))
+                for f_ in (lambda: ta >> tb, lambda: ta @ tb, lambda: ta.normsq(), lambda: tb.normsq()):
+                    _safe(f_)
             a, b = mv_from(alg, ak, poly_vals('a', ak)), mv_from(alg, bk, poly_vals('b', bk))
             A, B = fr.mv_to_ref(a), fr.mv_to_ref(b)
             checks = {
